@@ -453,6 +453,18 @@ class RustOracle:
                 if len(ser) != 1 or len(de) != 1:
                     self.fail("enum-impls", name, f"{len(ser)} Serialize / {len(de)} Deserialize impls")
                     continue
+                # the hand-written impls exist exactly when the enum does, their arms exactly when the variant does
+                for impl_ in (ser[0], de[0]):
+                    self.evaluations += 1
+                    if has_gate(impl_.attrs) != bool(e.get("proposed")):
+                        self.fail("feature-gate", f"impl {impl_.name}", f"gated={has_gate(impl_.attrs)}, enum proposed={bool(e.get('proposed'))}")
+                gated_variants = {v["name"] for v in en.variants if has_gate(v["attrs"])}
+                GATE = r'# \[ cfg \( feature = "proposed" \) \] '
+                for impl_, arm_re in ((ser[0], rf"((?:{GATE})?){name} :: (\w+) => serializer"), (de[0], rf"((?:{GATE})?)-?\d+ => Ok \( {name} :: (\w+) \)")):
+                    for gate_, vn in re.findall(arm_re, " ".join(impl_.body)):
+                        self.evaluations += 1
+                        if bool(gate_) != (vn in gated_variants):
+                            self.fail("feature-gate", f"impl {impl_.name}: arm {vn}", f"arm gated={bool(gate_)}, variant gated={vn in gated_variants}")
                 vname = {v["name"]: v["value"] for v in en.variants}
                 sbody = " ".join(ser[0].body)
                 arms = re.findall(rf"{name} :: (\w+) => serializer \. serialize_i32 \( (-?\d+) \)", sbody)
@@ -557,6 +569,10 @@ class RustOracle:
                     self.fail("missing-message-struct", msg["method"], f"no response struct {rname}")
                 else:
                     message_structs.add(rname)
+                    self.evaluations += 1
+                    if has_gate(self.structs[rname].attrs) != bool(msg.get("proposed")):
+                        # the response of a proposed request is a proposed item (it names proposed types)
+                        self.fail("feature-gate", rname, f"gated={has_gate(self.structs[rname].attrs)}, request proposed={bool(msg.get('proposed'))}")
                     rf = {attr_rename(f["attrs"]) or serde_camel(f["name"]): f for f in self.structs[rname].fields}
                     self.evaluations += 1
                     if "id" not in rf or "jsonrpc" not in rf:
